@@ -233,6 +233,8 @@ func runC17(e *Engine, r *Report) {
 	rulePoisonBlocking(e, r)
 	ruleHintVoting(e, r)
 	ruleQuiesceActivity(e, r)
+	ruleSnapshotJobSlot(e, r)
+	ruleJobUnregistered(e, r)
 }
 
 // c17Tables: node.tick advances every table clock on every path; gc reachable.
